@@ -107,8 +107,9 @@ def make_pool(rng: PlanRng):
     kind = rng.choice(["step", "array", "array_nonuniform"], p=[0.45, 0.35, 0.2])
     pool, meta = {}, {}
     if kind == "step":
-        dx = float(rng.choice([1.0, 0.5, 2.0]))
-        x = np.arange(n_dom) * dx
+        # a scalar step is as often typed 1 or 2 as 1.0: integer-typed steps are legal input
+        dx = rng.choice([1.0, 0.5, 2.0, 1, 3, 2])
+        x = np.arange(n_dom) * float(dx)
         pool["DOM"] = dx
     else:
         steps = np.full(n_dom - 1, float(rng.choice([5.0, 10.0])))
@@ -120,6 +121,9 @@ def make_pool(rng: PlanRng):
         n_fd = rng.integers(7, 16)
         fd = sig(np.linspace(x[0] - rng.uniform(0, 15), x[-1] + rng.uniform(0, 15), n_fd))
         pool["FD"] = fd
+        # the filters' own grid shifted by a fraction of a step: same length, so every
+        # own-grid spectrum is also a legal spectrum on this foreign domain
+        pool["FD3"] = sig(x + float(rng.uniform(0.2, 0.8)) * float(x[1] - x[0]))
     meta["kind"] = kind
     meta["n_rec"], meta["n_dom"] = n_rec, n_dom
     pool["F"] = sig(_bumps(rng, n_rec, x))
@@ -133,6 +137,12 @@ def make_pool(rng: PlanRng):
     for j, k in enumerate(sizes):
         pool[f"S{j}"] = sig(_bumps(rng, k, x, area=(0.6, 3.0)))
         meta["n_src"][f"S{j}"] = k
+    # an integer-typed source set (counts / digitised spectra): same meaning, other dtype
+    k = rng.integers(1, 4)
+    Si = np.asarray(rng.g.integers(0, 4, (k, n_dom)), dtype=np.int64)
+    Si[np.arange(k), rng.g.integers(1, n_dom - 1, k)] += 2     # no all-zero source
+    pool["Si"] = Si
+    meta["n_src"]["Si"] = k
     if kind != "step":
         k = rng.integers(1, 5)
         pool["SF0"] = sig(_bumps(rng, k, pool["FD"], area=(0.6, 3.0)))
@@ -596,6 +606,7 @@ def random_query(rng: PlanRng, meta, solver_ok=True, slow_ok=True):
         cheap += [
             lambda: {"q": "capture", "a": {"signals": "sigF", "domain": "FD"}},
             lambda: {"q": "relative_capture", "a": {"signals": "sigF", "domain": "FD"}},
+            lambda: {"q": "relative_capture", "a": {"signals": "sig", "domain": "FD3"}},
         ]
     solver = [
         lambda: {"q": "fit", "a": {"B": B, "model": "gaussian",
@@ -611,7 +622,7 @@ def random_query(rng: PlanRng, meta, solver_ok=True, slow_ok=True):
                                                   "seed": rng.integers(0, 3)}},
     ]
     if solver_ok and rng.coin(0.3):
-        w = [4, 1.5, 2, 2, 2, 1, 0.3 if slow_ok else 0.0]
+        w = [4, 2.5, 2, 2, 2, 1, 0.3 if slow_ok else 0.0]
         return rng.choice(solver, p=w)()
     return rng.choice(cheap)()
 
@@ -626,6 +637,8 @@ def random_mutator(rng: PlanRng, sym: Sym, meta, first=False, allow_reject=False
         dom = None
         if kind != "step" and rng.coin(0.3):
             src, dom = "SF0", "FD"
+        elif kind != "step" and rng.coin(0.25):
+            dom = "FD3"          # the same values, declared to live on a shifted grid
         kk = meta["n_src"][src]
         lb = rng.choice([None, None, "lbs", f"lb{kk}a", f"lb{kk}i"], p=[2, 2, 2, 2, 1])
         ub = rng.choice([None, "ubs0", "ubs1", f"ub{kk}a", f"ub{kk}b", f"ub{kk}i"],
@@ -651,6 +664,8 @@ def random_mutator(rng: PlanRng, sym: Sym, meta, first=False, allow_reject=False
         bg, dom = rng.choice(["bg0", "bg1"]), None
         if kind != "step" and rng.coin(0.3):
             bg, dom = "bgF", "FD"
+        elif kind != "step" and rng.coin(0.2):
+            dom = "FD3"
         return {"m": "register_background_adaptation", "background": bg, "domain": dom,
                 "add_baseline": rng.coin(0.7), "add": rng.coin(0.35)}
 
@@ -818,6 +833,11 @@ def generate(rs, mode, tier, index):
             muts += 1
             while rng.coin(q_density / (1 + q_density)):
                 q = random_query(rng, meta)
+                past = [o for o in ops if "q" in o]
+                if past and rng.coin(0.3):
+                    # the very same request again, after whatever was registered since
+                    q = copy.deepcopy(rng.choice(past))
+                    q.pop("fault", None)
                 if mode == "faults" and rng.coin(fault_p):
                     q["fault"] = {"kind": rng.choice(kinds), "frac": float(sig(rng.random(), 4)),
                                   "k": rng.integers(0, 5),
@@ -848,6 +868,7 @@ def generate(rs, mode, tier, index):
             "full_battery_every": rng.choice([0, 3, 5]),
             "full_battery": [random_query(rng, meta, slow_ok=False) for _ in range(4)] + [
                 {"q": "fit", "a": {"B": "Bq1"}},
+                {"q": "fit", "a": {"B": "Bq1", "model": "poisson"}},
                 {"q": "range_of_solutions", "a": {"B": "Bq0"}},
                 {"q": "sample_in_gamut", "a": {"n": 5, "seed": 2}},
                 {"q": "compute_gamut", "a": {"seed": 2}},
@@ -879,6 +900,7 @@ class ClientState:
         self.nf_master = None
         self.nf_info = (0, 0)
         self.alive = True
+        self.pending = []      # (normal form at that time, query, answer, n_src): pristine refs
 
 
 def build_nf(cs: ClientState, pool, meta):
@@ -936,21 +958,23 @@ def execute(plan):
 
     use_pristine = bool(plan.get("pristine", False))
 
-    def compare_pristine(cs, queries, answers, where):
+    def compare_pristine(cs, queries, answers, where, nf=None, n_src=None):
         from sim import pristine
-        nf, _, _ = normal_form(cs.muts)
+        if nf is None:
+            nf, _, _ = normal_form(cs.muts)
+            n_src = cs.sym.n_src
         qs = [{k: v for k, v in q.items() if k != "fault"} for q in queries]
         refs = pristine.client().call("checks.c14", "pristine_battery", plan["pool"], meta,
-                                      cs.client, nf, qs, cs.sym.n_src)
+                                      cs.client, nf, qs, n_src)
         bump("pristine_process_references", len(qs))
         for q, r_h, r_p in zip(qs, answers, refs):
             rt, at = tol_for(q)
             ok, d, why = compare(r_h, r_p, rt, at)
             if not ok:
                 raise Violation(ID, "answer_differs_from_pristine_process",
-                                f"{q['q']}{q.get('a', {})} after history of {len(cs.muts)} "
-                                f"mutators differs from the same normal form replayed in a "
-                                f"process where dreye was never called before: {why}",
+                                f"{q['q']}{q.get('a', {})} ({where}) differs from the same "
+                                f"normal form replayed in a process where dreye was never called "
+                                f"before: {why}",
                                 query=q, where=where, client=cs.client["id"])
 
     def compare_query(cs, q, where, faulted_outcome=None, overlay=None):
@@ -1082,8 +1106,10 @@ def execute(plan):
             q = op
             fault = q.get("fault")
             if fault is None:
-                compare_query(cs, q, f"step {step}")
+                r_h, _ = compare_query(cs, q, f"step {step}")
                 bump("history_queries")
+                if use_pristine and len(cs.pending) < 10:
+                    cs.pending.append((normal_form(cs.muts)[0], q, r_h, cs.sym.n_src, step))
                 continue
             n_src = cs.sym.n_src
             kind = fault["kind"]
@@ -1183,6 +1209,14 @@ def execute(plan):
             if use_pristine:
                 compare_pristine(cs, plan["battery"] + plan["full_battery"], answers,
                                  "final battery")
+        # every unfaulted history query against the normal form *of its own moment* replayed in
+        # a pristine process (one fork per query: module-level state left behind by one request
+        # must not reach the reference of another)
+        if use_pristine:
+            for cs in states.values():
+                for nf_then, q, r_h, n_src_then, step_then in cs.pending:
+                    compare_pristine(cs, [q], [r_h], f"step {step_then}", nf=nf_then,
+                                     n_src=n_src_then)
     except Violation as v:
         violation = v.as_dict()
 
